@@ -177,6 +177,17 @@ class BlastHooks(QHooks):
             self.fail(E, 'flagcritical-set-before-final-dot', None, 'flagcritical is not 1 when blast() returns')
 
 
+def critical_flag(prog, dr):
+    """the global whose being non-zero guards the "Possible duplicate" text of dropped() (possibly inside a helper)"""
+    from qv.lib import branch_zero_test, _cmp_parts, deep_calls, guards_through
+    for f, c in deep_calls(prog, dr, 'out'):
+        if c.args[0].string and 'duplicate' in c.args[0].string.lower():
+            for cc, t in guards_through(prog, dr, f, c):
+                if branch_zero_test(cc, t, lambda v: (v.path() or '').startswith('G:')) == 'nonzero':
+                    return _cmp_parts(cc)[0].path()
+    return None
+
+
 def run(ctx):
     db, rep = ctx.db, ctx.report
     prog = db.program('qmail-remote')
@@ -188,12 +199,7 @@ def run(ctx):
     # the flag that guards the "Possible duplicate" warning in dropped()
     from qv.lib import branch_zero_test, _cmp_parts
     dr = prog.fn('dropped', 'qmail-remote.c')
-    H.critflag = None
-    for c in dr.calls('out'):
-        if c.args[0].string and 'duplicate' in c.args[0].string.lower():
-            for cc, t in dr.guards(c) or []:
-                if branch_zero_test(cc, t, lambda v: (v.path() or '').startswith('G:')) == 'nonzero':
-                    H.critflag = _cmp_parts(cc)[0].path()
+    H.critflag = critical_flag(prog, dr)
     if H.critflag is None:
         raise AnalysisBroken('dropped(): the flag guarding the duplicate warning was not identified')
     eng = Engine(db, prog, H)
@@ -223,23 +229,34 @@ def run(ctx):
 
     # the byte is only compared, never computed with (exactness of the class abstraction)
     r2 = rep.rule('C06.2-abstraction-exact', 'R-GUARD', 'blast() uses the message byte only in comparisons with constants and as output')
+    from qv.lib import unit_callees
     n = 0
-    for x in blast.all_x():
-        if x.k == 'cast' and x.op == 'LValueToRValue' and x.args[0].path() and x.args[0].path().startswith('L:ch'):
+    for f in unit_callees(prog, blast):
+        if f.name in ('temp_read', 'perm_partialline', 'out', 'zerodie', 'outhost', 'temp_nomem'):
+            continue
+        users = {}
+        for y in f.all_x():
+            for a in y.args:
+                if a is not None:
+                    users.setdefault(a.id, []).append(y)
+        for x in f.all_x():
+            if not (x.k == 'cast' and x.op == 'LValueToRValue' and x.type in ('char', 'unsigned char') and x.args[0].var and x.args[0].var[:2] in ('L:', 'P:')):
+                continue
             n += 1
-            # find the user of this load
-            users = [y for y in blast.all_x() if any(a is not None and a.id == x.id for a in y.args)]
             ok = True
-            for u in users:
-                uu = u
-                while uu.k == 'cast':
-                    nxt = [y for y in blast.all_x() if any(a is not None and a.id == uu.id for a in y.args)]
-                    if not nxt:
-                        break
-                    uu = nxt[0]
-                if not (uu.k == 'bin' and uu.op in ('==', '!=') and (uu.args[0].const is not None or uu.args[1].const is not None)):
-                    ok = False
-            r2.check(ok, 'use-of-ch@%d' % n, x.where, 'message byte used other than in ==/!= with a constant')
+            work = [x]
+            while work:
+                u = work.pop()
+                for uu in users.get(u.id, []):
+                    if uu.k == 'cast':
+                        work.append(uu)
+                    elif uu.k == 'bin' and uu.op in ('==', '!=') and (uu.args[0].const is not None or uu.args[1].const is not None):
+                        pass
+                    elif uu.k == 'call' or uu.k == 'decl' or (uu.k == 'asg' and uu.op == '='):
+                        pass        # handed on unchanged (argument, copy)
+                    else:
+                        ok = False
+            r2.check(ok, 'byte-only-compared-or-copied:%s:%s@%d' % (f.name, x.args[0].var.split('#')[0], n), x.where, 'message byte used other than in ==/!= with a constant, as an argument or in a copy')
     r2.expect_min(3)
     r3 = rep.rule('C06.3-short-writes', 'R-BOUND', 'substdo.c allwrite: after a short write exactly the unwritten remainder is written next (linear symbolic check of the buffer and length arguments over three iterations), so nothing but the encoded stream reaches the socket')
     from rules import shortwrite
